@@ -6,6 +6,7 @@ usage: seedtest.py <dir with patch.diff demo_test.go notes.txt> <seed-id> <prope
 Writes /verif/seeded/<seed-id>/ {patch.diff, demo_test.go, meta.json}."""
 import json, os, shutil, subprocess, sys, time
 
+DEMOFLAGS = os.environ.get("SEED_DEMO_FLAGS", "")
 ENV = dict(os.environ, GOFLAGS="-mod=mod", GOPROXY="off", GOSUMDB="off", GOTOOLCHAIN="local")
 
 
@@ -31,7 +32,7 @@ def main():
         dst = os.path.join(wt, pkgdir, "zz_seeded_demo_test.go")
         # clean tree: demo passes
         shutil.copy(demo, dst)
-        rc, o = sh("go test -count=1 -run TestSeededDemo ./%s" % pkgdir, cwd=wt)
+        rc, o = sh("%s go test %s -count=1 -run TestSeededDemo ./%s" % (("CGO_ENABLED=1" if "-race" in DEMOFLAGS else ""), DEMOFLAGS, pkgdir), cwd=wt)
         meta["confirmed"]["demo_passes_on_clean_tree"] = rc == 0
         os.remove(dst)
         rc, o = sh("git apply %s" % patch, cwd=wt)
@@ -41,7 +42,7 @@ def main():
         rc, o = sh("go test -count=1 ./...", cwd=wt)
         meta["confirmed"]["existing_suite_passes_with_change"] = rc == 0
         shutil.copy(demo, dst)
-        rc, o = sh("go test -count=1 -run TestSeededDemo ./%s" % pkgdir, cwd=wt)
+        rc, o = sh("%s go test %s -count=1 -run TestSeededDemo ./%s" % (("CGO_ENABLED=1" if "-race" in DEMOFLAGS else ""), DEMOFLAGS, pkgdir), cwd=wt)
         meta["confirmed"]["demo_fails_with_change"] = rc != 0
         meta["confirmed"]["demo_output_tail"] = o[-600:]
     finally:
@@ -69,7 +70,7 @@ def main():
     finally:
         sh("git -C /repo checkout -- .")
     meta["caught_by"] = [p for p, v in meta["checks"].items() if v["exit"] != 0]
-    meta["what_was_run"] = "scratch worktree: go build, go vet, go test ./... with the change (pass), demo with the change (fail), demo without (pass); then git -C /repo apply, bin/check <property> quick for " + ", ".join(props) + ", git -C /repo checkout -- ."
+    meta["what_was_run"] = "scratch worktree: go build, go vet, go test ./... with the change (pass), demo with the change (fail), demo without (pass)" + ((" [demo run with " + DEMOFLAGS + "]") if DEMOFLAGS else "") + "; then git -C /repo apply, bin/check <property> quick for " + ", ".join(props) + ", git -C /repo checkout -- ."
     out = os.path.join("/verif/seeded", sid)
     os.makedirs(out, exist_ok=True)
     shutil.copy(patch, os.path.join(out, "patch.diff"))
